@@ -93,6 +93,37 @@ def r02c(model: Model, rr: RuleResult):
     facts = [norm(e) for e, pol in guard_facts(tcfg, tcfg.node_for(mig[0])) if pol]
     need_all = any("len(values) == len(uses)" == f or "len(uses) == len(values)" == f for f in facts)
     need_one = any(f in ("len(unique_values) == 1", "1 == len(unique_values)") for f in facts)
+    if not (need_all and need_one):
+        # the same two requirements by role, in the spellings a clean-up produces (all(...), not any(not ...), set comprehension, inlined set(values))
+        from ..dataflow import deref as _r2c
+        mnode = tcfg.node_for(mig[0])
+
+        def carried_by_all(e, pol):
+            if isinstance(e, ast.Call) and isinstance(e.func, ast.Name) and e.func.id in ("all", "any") and len(e.args) == 1 and isinstance(e.args[0], (ast.GeneratorExp, ast.ListComp)):
+                g = e.args[0]
+                if len(g.generators) == 1 and not g.generators[0].ifs and norm(g.generators[0].iter) == "uses" and isinstance(g.elt, ast.Compare) and len(g.elt.ops) == 1:
+                    v = norm(g.generators[0].target)
+                    inn = isinstance(g.elt.ops[0], ast.In) and norm(g.elt.left) == "attr_name" and norm(g.elt.comparators[0]) == f"{v}.attrib"
+                    nin = isinstance(g.elt.ops[0], ast.NotIn) and norm(g.elt.left) == "attr_name" and norm(g.elt.comparators[0]) == f"{v}.attrib"
+                    return (e.func.id == "all" and inn and pol) or (e.func.id == "any" and nin and not pol)
+            if isinstance(e, ast.Compare) and len(e.ops) == 1 and isinstance(e.ops[0], (ast.Eq, ast.NotEq)) and (isinstance(e.ops[0], ast.Eq) == pol):
+                sides = sorted([norm(_r2c(tcfg, mnode, e.left)), norm(_r2c(tcfg, mnode, e.comparators[0]))])
+                return any(x.startswith("len([") and "for " in x and " in uses if attr_name in " in x for x in sides) and any(x.replace(" ", "").startswith("len(list(uses") or x == "len(uses)" or x.startswith("len(list(") for x in sides)
+            return False
+
+        def single_value(e, pol):
+            if isinstance(e, ast.Compare) and len(e.ops) == 1 and isinstance(e.ops[0], (ast.Eq, ast.NotEq)) and (isinstance(e.ops[0], ast.Eq) == pol):
+                a_, b_ = e.left, e.comparators[0]
+                if norm(b_) != "1":
+                    a_, b_ = b_, a_
+                if norm(b_) == "1" and isinstance(a_, ast.Call) and norm(a_.func) == "len" and len(a_.args) == 1:
+                    inner = _r2c(tcfg, mnode, a_.args[0])
+                    t_ = norm(inner)
+                    return t_.startswith("set(") or (isinstance(inner, ast.SetComp) and norm(inner.generators[0].iter) == "uses" and "attr_name" in norm(inner.elt))
+            return False
+        gf = guard_facts(tcfg, mnode)
+        need_all = need_all or any(carried_by_all(e, pol) for e, pol in gf)
+        need_one = need_one or any(single_value(e, pol) for e, pol in gf)
     if need_all and need_one:
         rr.ok("paint attribute moves from <use> to its target only if every use carries it and all values are equal")
     else:
@@ -118,7 +149,10 @@ def r02c(model: Model, rr: RuleResult):
     else:
         raise AnalysisError("_tidy_use_elements: groupby(use_els, key=...) not found")
     dup = [n for n in walk_body(tfi) if isinstance(n, ast.SetComp)]
-    if dup and "attr_value == reused_el.attrib.get(attr_name)" in norm(dup[0]):
+    from ..guards import canon_conjuncts as _cc2
+    dupc = [c_ for d_ in dup for g_ in d_.generators for i_ in g_.ifs for c_ in _cc2(i_)]
+    if dup and ("attr_value == reused_el.attrib.get(attr_name)" in norm(dup[0]) or "attr_value == reused_el.attrib.get(attr_name)" in dupc
+                or "attr_value == reused_el.attrib[attr_name]" in dupc):
         rr.ok("a <use> attribute is dropped only when the target already has the same value")
     else:
         rr.bad_shape(tfi, tfi.node, "<use> attributes are dropped without comparing with the target's value", construct="_tidy_use_elements: duplicate_attrs")
@@ -245,10 +279,17 @@ def r02d(model: Model, rr: RuleResult):
     g = inner.target.id
     t = [norm(b) for b in inner.body]
     ok = any(x == f"glyph_order.append({g})" for x in t) and any(x == f"color_glyphs[{g}] = color_glyphs[{g}]._replace(glyph_id=gid)" for x in t) and any(x == "gid += 1" for x in t)
+    if not ok and any(x == f"color_glyphs[{g}] = color_glyphs[{g}]._replace(glyph_id=gid)" for x in t) and any(x == "gid += 1" for x in t):
+        # the new order may be extended in one go with the very sequence the loop numbers
+        ext = [c for c in calls_in(efi) if callee_tail(c) == "extend" and norm(c.func.value) == "glyph_order" and len(c.args) == 1]
+        if len(ext) == 1 and norm(ext[0].args[0]) == norm(inner.iter) and not any(callee_tail(c) == "append" and norm(c.func.value) == "glyph_order" for c in calls_in(efi)):
+            ok = True
     if ok:
         rr.ok("renumbering: glyph appended to the new order, its ColorGlyph re-bound with that gid, gid incremented")
-    else:
+    elif any(x == f"glyph_order.append({g})" for x in t) or any(x == "gid += 1" for x in t):
         rr.bad(efi, inner, "renumbering loop does not keep the new glyph order and the recorded glyph ids in step", construct=short(inner, 160))
+    else:
+        rr.bad_shape(efi, inner, "renumbering loop does not keep the new glyph order and the recorded glyph ids in step", construct=short(inner, 160))
     ecfg = cfg_of(efi)
     # every colour glyph is renumbered: the loop runs over all the caller's groups (the .notdef group, fixed at gid 0, aside)
     outer = [st for st in walk_body(efi) if isinstance(st, ast.For) and inner in st.body]
